@@ -131,6 +131,12 @@ def lpc_source(g, P, base, savebin=False):
                     calls.append("%s();" % c[1:])
                 elif c[0] == "F":
                     calls.append("evaluate((: %s :));" % c[1:])
+                elif c[0] == "G":       # the pointer is evaluated by ANOTHER object
+                    calls.append('"/c07/caller"->do_eval((: %s :));' % c[1:])
+                elif c[0] == "H":       # a functional whose body makes the local call
+                    calls.append("evaluate((: %s() :));" % c[1:])
+                elif c[0] == "I":       # ... evaluated by the other object
+                    calls.append('"/c07/caller"->do_eval((: %s() :));' % c[1:])
                 else:
                     par, fn = c[1:].split(".")
                     calls.append("%s::%s();" % ("" if par == "*" else par, fn))
@@ -716,7 +722,7 @@ class C07(Prop):
                     lower = [f for f in fpool if fnum(f) < fnum(fn) and f in vis and "hidden" not in vis[f][0]
                              and (vis[f][1] or rng.chance(1, 6))]
                     if lower:
-                        calls.append(("L" if rng.chance(3, 4) else "F") + rng.choice(lower))
+                        calls.append(rng.weighted([("L", 12), ("F", 3), ("G", 2), ("H", 1), ("I", 2)]) + rng.choice(lower))
                 P.items.append(("d", rng.weighted([("-", 6), ("static", 3), ("private", 2), ("protected", 1), ("public", 1)]), fn, calls))
                 vis = visible_names(g, P.name)
             if rng.chance(1, 8):
@@ -858,7 +864,10 @@ class C07(Prop):
                             h["prototypes"] += 1
                         elif f[0] == "d" and f[3] != "-":
                             for x in f[3].split("+"):
-                                h[{"S": "super_calls", "L": "local_calls", "F": "fp_calls"}[x[0]]] += 1
+                                h[{"S": "super_calls", "L": "local_calls", "F": "fp_calls", "G": "fp_calls_evaluated_by_other_object",
+                                   "H": "functional_calls", "I": "functional_calls_evaluated_by_other_object"}[x[0]]] = \
+                                    h.get({"S": "super_calls", "L": "local_calls", "F": "fp_calls", "G": "fp_calls_evaluated_by_other_object",
+                                           "H": "functional_calls", "I": "functional_calls_evaluated_by_other_object"}[x[0]], 0) + 1
                     if ni > 1:
                         h["multi_inherit_programs"] += 1
             for l in impl.get(c.id, []):
